@@ -175,6 +175,8 @@ func ConfigureEmittedWorld(w *World) {
 			return CallPure
 		case strings.HasPrefix(name, "func:Security"):
 			return CallPure // user authenticator: (r', ok) is a function of (hook, r, token)
+		case name == "http.ResponseWriter.Header":
+			return CallPure
 		case strings.HasPrefix(name, "http.ResponseWriter."), strings.HasPrefix(name, "http.Handler."):
 			return CallEvent
 		case strings.HasPrefix(name, "io.Writer."), strings.HasPrefix(name, "io.ReadCloser."), strings.HasPrefix(name, "io.Reader."):
@@ -186,8 +188,32 @@ func ConfigureEmittedWorld(w *World) {
 		}
 		return CallHavoc
 	}
+	w.GlobalFact = func(e *FuncEnc, g *ssa.Global, val string) string {
+		if g.Name() == "LogError" {
+			e.Assumed["the package-level hook LogError is not set to nil"] = true
+			return not(eq(val, "0"))
+		}
+		return ""
+	}
+	w.DynResultFact = func(e *FuncEnc, name string, results []string, rts []types.Type) string {
+		name = strings.ReplaceAll(name, "emitted.", "")
+		if len(results) != 1 {
+			return ""
+		}
+		switch {
+		case strings.HasPrefix(name, "func:func(h http.Handler) http.Handler"), strings.HasPrefix(name, "func:func(http.Handler) http.Handler"), name == "Middleware.Middleware", strings.HasPrefix(name, "func:MiddlewareFunc"):
+			e.Assumed["user middlewares return non-nil handlers"] = true
+			return not(eq(sx("if_tag", results[0]), "0"))
+		case strings.HasPrefix(name, "func:") && strings.HasSuffix(name, "HandlerFunc"):
+			e.Assumed["operation handlers return one of the documented responses (not nil)"] = true
+			return not(eq(sx("if_tag", results[0]), "0"))
+		}
+		return ""
+	}
 	w.ExternalPolicy = func(full string) CallKind {
 		switch {
+		case full == "(net/http.Header).Add" || full == "(net/http.Header).Set" || full == "(net/http.Header).Del":
+			return CallEvent
 		case strings.HasPrefix(full, "(net/http.Header)."), strings.HasPrefix(full, "(net/url.Values)."), strings.HasPrefix(full, "(*net/url.URL)."),
 			strings.HasPrefix(full, "(*net/http.Request).Context"), strings.HasPrefix(full, "(*net/http.Request).WithContext"),
 			strings.HasPrefix(full, "context."), strings.HasPrefix(full, "fmt.Sprint"), strings.HasPrefix(full, "strconv."), strings.HasPrefix(full, "strings."),
